@@ -204,6 +204,7 @@ def normalize_url(
     unsplit=True,
     quoted=False,
     query_item_filter=None,
+    lowercase=False,
 ):
     """
     Function normalizing the given url by stripping it of usually
@@ -350,9 +351,21 @@ def normalize_url(
         # TODO: should be dedupe query items?
         # NOTE: items are unquoted first so that filtering & sorting do not
         # depend on the way keys and values happen to be escaped
+        qsl = safely_unquote_qsl(safe_qsl_iter(query))
+
+        # NOTE: lowercasing must happen once unquoted (e.g. %41) and before sorting
+        if lowercase:
+            qsl = [
+                (
+                    upper_quoted(key.lower()),
+                    upper_quoted(value.lower()) if value is not None else None,
+                )
+                for key, value in qsl
+            ]
+
         qsl = [
             item
-            for item in safely_unquote_qsl(safe_qsl_iter(query))
+            for item in qsl
             if not should_strip_query_item(
                 item,
                 normalize_amp=normalize_amp,
@@ -415,6 +428,9 @@ def normalize_url(
 
     path = safely_unquote_path(path)
 
+    if lowercase:
+        path = upper_quoted(path.lower())
+
     if quoted:
         path = safely_quote(path)
 
@@ -424,6 +440,9 @@ def normalize_url(
     query = safe_serialize_qsl(qsl)
 
     fragment = safely_unquote_fragment(fragment)
+
+    if lowercase:
+        fragment = upper_quoted(fragment.lower())
 
     if quoted:
         fragment = safely_quote(fragment)
